@@ -134,6 +134,12 @@ struct carquet_column_reader {
     /* Retained page data for BYTE_ARRAY value pointers */
     uint8_t* page_data_for_values;
 
+    /* Page data of earlier pages that values handed out by the current
+     * read call may still point into; released at the next read call */
+    uint8_t** retired_page_data;
+    int32_t num_retired_pages;
+    int32_t retired_pages_capacity;
+
     /* Current page state for partial reads */
     bool page_loaded;           /* Is a page currently loaded? */
     int32_t page_num_values;    /* Total values in current page */
